@@ -352,7 +352,30 @@ fn gen_until_limit(rng: &mut Rng, g: &Gen) -> Option<Op> {
     Some(Op::Until(lo, hi, 0))
 }
 
+/// keep the share of trivially failing requests moderate: most out-of-bounds reads / inverted ranges are
+/// pulled back into the file (the dedicated out-of-bounds / overflow families are left alone)
+fn tame(rng: &mut Rng, g: &Gen, op: Op) -> Op {
+    if g.len == 0 || rng.chance(1, 4) {
+        return op;
+    }
+    match op {
+        Op::Read(o, n) if n > 0 && n < 8 * CH && o < u64::MAX / 2 => {
+            let o2 = if o >= g.len { rng.below(g.len) } else { o };
+            let n2 = if o2 + n > g.len + 1 { rng.range(1, g.len - o2) } else { n };
+            Op::Read(o2, n2)
+        }
+        Op::Until(a, b, d) if b < a => Op::Until(b, a, d),
+        Op::Until(a, b, d) if b > g.len && a <= g.len => Op::Until(a, g.len - rng.below(g.len - a + 1), d),
+        _ => op,
+    }
+}
+
 fn gen_op(rng: &mut Rng, g: &Gen, data: &[u8], prev: &[Op]) -> Op {
+    let op = gen_op_raw(rng, g, data, prev);
+    tame(rng, g, op)
+}
+
+fn gen_op_raw(rng: &mut Rng, g: &Gen, data: &[u8], prev: &[Op]) -> Op {
     match rng.below(20) {
         0..=9 => gen_read(rng, g, prev),
         10..=13 => gen_until(rng, g, data, prev),
@@ -413,6 +436,34 @@ fn boundary_case(len: u64, pat: u64) -> Case {
     Case { name: format!("boundary-{len}-p{pat}"), ops }
 }
 
+/// the largest file length the theorems admit (`len + CHUNK_SIZE < 2^64`), over a virtual source: reads in
+/// the last chunks, at EOF, overflowing; (the excluded lengths `>= 2^64 - 32768` are in
+/// corpus/C13/excluded-file-len-near-u64-max.ops.disabled, see notes/C13.md)
+fn huge_case(pat: u64) -> Case {
+    let len = u64::MAX - CH; // 2^64 - 32769
+    let g = Gen { len, seed: 5, pat, period: 300, bad_lo: 0, bad_hi: 0 };
+    let mut ops = vec![g.line()];
+    let mut p = |o: Op| ops.push(o.line());
+    p(Op::Read(len - 47, 5));
+    p(Op::Read(len - 7, 7));
+    p(Op::Read(len - 7, 8));
+    p(Op::Read(len - CH - 3, 6)); // straddles the last chunk boundary
+    p(Op::Read(len - CH - 3, CH)); // start cached, extends to EOF
+    p(Op::Read(len - 1, 1));
+    p(Op::Read(len, 0));
+    p(Op::Read(len, 1));
+    p(Op::Read(len - 1, CH + 2)); // offset + size overflows
+    p(Op::Until(len - 900, len, 0));
+    p(Op::Until(len - 900, len - 890, 0));
+    p(Op::Until(len, len, 0));
+    p(Op::Until(len - 1, len, 0));
+    p(Op::Read(0, 9));
+    p(Op::Read(1 << 40, 9));
+    p(Op::Into(len - 5, 5));
+    p(Op::Into(len - 5, 6));
+    Case { name: format!("huge-admitted-p{pat}"), ops }
+}
+
 /// the repo's unit-test scenarios of the range planner, scaled to the real chunk size, on real bytes
 fn planner_cases() -> Vec<Case> {
     let g = Gen { len: 5 * CH + CH / 2, seed: 7, pat: 0, period: 1, bad_lo: 0, bad_hi: 0 };
@@ -467,6 +518,8 @@ impl Prop for C13 {
             v.push(boundary_case(len, 0));
         }
         v.extend(planner_cases());
+        v.push(huge_case(0));
+        v.push(huge_case(1));
         v
     }
     fn generate(&self, rng: &mut Rng, tier: Tier, _index: u64) -> Vec<String> {
